@@ -2,6 +2,12 @@ import PhyModel.Proofs.StoreWF_StepDense
 import PhyModel.Proofs.StoreWF_Labels
 import PhyModel.Proofs.C07Example
 import PhyModel.Proofs.StoreDataMove
+import PhyModel.Proofs.GraphExample
+import PhyModel.Proofs.GraphOfCreate2
+import PhyModel.Proofs.GraphOfStruct
+import PhyModel.Proofs.GraphOfGraft
+import PhyModel.Proofs.GraphOfDict
+import PhyModel.Proofs.GraphSim5
 /-! # C07 — every tree is a well-formed forest and no edit loses or duplicates data (store model)
 
 Property theorems only; the proofs are in `Proofs/StoreWF_*.lean` (one file per operation on top of
@@ -15,7 +21,8 @@ and no data point is listed twice; `Full` — every clone has its `_data` key; `
 and `_data` list agree including order.  `Legal sys op` holds the side conditions under which the
 samplers call an edit (`Dense` names and fresh data for `create_root_node`, a subtree of the same
 tree for `remove_subtree`, disjoint data for `add_subtree`).  Graph *shape* (one parent per clone,
-reachability) is structural in the model (DESIGN section 4, L4).
+reachability) is structural in the store model; it is proved for the primitive-level digraph model
+`Model/Graph.lean` in the last section of this file ("graph shape").
 
 The composed move theorems (`subtree_move_conserves`, `dp_move_conserves`) and `wfB ↔ WF` are in
 separate files. -/
@@ -302,5 +309,220 @@ example : (WF exS ∧ Full exS) ∧ exS.removeDataPointFromNode exData 2 0 = som
   ⟨⟨(wfB_iff _).1 (by decide +kernel), by unfold Full; decide +kernel⟩,
     some_getD _ _ (by decide +kernel), some_getD _ _ (by decide +kernel), by decide +kernel⟩
 
+
+/-! ## graph shape: each clone has exactly one parent and is reachable from the virtual root
+
+`Model/Graph.lean` models the rustworkx graph inside `Tree` as live indices + edge list (shape is *not*
+structural there) and every shape-changing `Tree` method as the sequence of `PyDiGraph` calls `tree.py`
+makes, with the indices rustworkx hands out as parameters.  `IsForest g` (`Proofs/GraphInv.lean`): 0 is
+live and is no edge's target, edges join live nodes, every other live node occurs exactly once as a
+target in the edge list, every live node is reachable from 0. -/
+section GraphShape
+open PhyModel.Graph (DG IsForest Reach GOp GSys GLegal gInit gStep gRun gCreateRootNode gGetSubtree
+  gRemoveSubtree gAddSubtree gFromDict gCopy isForestB)
+
+/-- `Tree(grid_size)` -/
+theorem forest_init : IsForest gInit := Graph.isForest_init
+
+/-- `create_root_node`: `add_node`, `add_edge(root, new)`, per child `remove_edge(root, child)`;
+`add_edge(new, child)`.  Success of the primitives implies that `new` was not in use and that the children
+are distinct top-level clones; that none of them is the node being created is the call sites' -/
+theorem forest_createRootNode {g g' : DG} {new : ℕ} {kids : List ℕ} (hf : IsForest g)
+    (hk : ∀ c ∈ kids, c ≠ new) (h : gCreateRootNode g new kids = some g') : IsForest g' :=
+  Graph.forest_createRootNode hf hk h
+
+/-- `get_subtree`: `subgraph([r] + descendants(r))` composed under a fresh root, for any numbering
+(`ρ₁` of the subgraph, `ρ₂` of the composition) that the model accepts (no collisions) -/
+theorem forest_getSubtree {g g' : DG} {r : ℕ} {ρ₁ ρ₂ : ℕ → ℕ} (hf : IsForest g)
+    (h : gGetSubtree g r ρ₁ ρ₂ = some g') : IsForest g' := Graph.forest_getSubtree hf h
+
+/-- `remove_subtree`: `remove_nodes_from(descendants(r) + [r])` for a clone `r` -/
+theorem forest_removeSubtree {g g' : DG} {r : ℕ} (hf : IsForest g) (hr : r ≠ 0)
+    (h : gRemoveSubtree g r = some g') : IsForest g' := Graph.forest_removeSubtree hf hr h
+
+/-- `add_subtree`: `compose` with an edge parent → copy of the grafted root, then
+`remove_node_retain_edges` of that copy -/
+theorem forest_addSubtree {g sub g' : DG} {p : ℕ} {ρ : ℕ → ℕ} (hf : IsForest g) (hs : IsForest sub)
+    (h : gAddSubtree g sub p ρ = some g') : IsForest g' := Graph.forest_addSubtree hf hs h
+
+/-- `from_dict`: `extend_from_edge_list`, then removal of the indices `node_idx_rev` does not list,
+rebuilds the forest the dictionary describes (same live set, same edge list) -/
+theorem forest_fromDict {edges : List (ℕ × ℕ)} {live : List ℕ} (hf : IsForest { nodes := live, edges := edges }) :
+    IsForest (gFromDict edges live) ∧ (gFromDict edges live).nodes.Perm live ∧
+      (gFromDict edges live).edges = edges :=
+  ⟨Graph.forest_fromDict hf, Graph.gFromDict_spec hf⟩
+
+/-- **C07 (graph shape, step).**  A graph-level edit that does not raise leaves every live graph a rooted
+forest. -/
+theorem forest_step {sys sys' : GSys} {op : GOp} (hall : ∀ g ∈ sys, IsForest g) (hleg : GLegal op)
+    (hstep : gStep sys op = some sys') : ∀ g ∈ sys', IsForest g := Graph.forest_step hall hleg hstep
+
+/-- **C07 (graph shape, all histories).** -/
+theorem forest_reachable {ops : List GOp} {sys : GSys} (hleg : ∀ op ∈ ops, GLegal op)
+    (h : gRun [gInit] ops = some sys) : ∀ g ∈ sys, IsForest g := Graph.forest_reachable hleg h
+
+/-- **the operations do not raise at the call sites' preconditions** (total correctness of `forest_*`): the
+index handed out is free and the children are distinct top-level clones (`create_root_node`); the subtree
+root is live and the numberings do not collide (`get_subtree`, `remove_subtree`); the parent is live and
+the copies' indices are free and distinct (`add_subtree`) -/
+theorem forest_ops_total {g : DG} (hf : IsForest g) :
+    (∀ new kids, new ∉ g.nodes → kids.Nodup → (∀ c ∈ kids, (0, c) ∈ g.edges) →
+      ∃ g', gCreateRootNode g new kids = some g' ∧ IsForest g') ∧
+    (∀ r, r ∈ g.nodes → r ≠ 0 → ∃ g', gRemoveSubtree g r = some g' ∧ IsForest g') ∧
+    (∀ r (ρ₁ ρ₂ : ℕ → ℕ), r ∈ g.nodes → (∀ a ∈ g.nodes, ∀ b ∈ g.nodes, ρ₂ (ρ₁ a) = ρ₂ (ρ₁ b) → a = b) →
+      (∀ a ∈ g.nodes, ρ₂ (ρ₁ a) ≠ 0) → ∃ g', gGetSubtree g r ρ₁ ρ₂ = some g' ∧ IsForest g') ∧
+    (∀ sub p (ρ : ℕ → ℕ), IsForest sub → p ∈ g.nodes → (sub.nodes.map ρ).Nodup → (∀ v ∈ sub.nodes, ρ v ∉ g.nodes) →
+      ∃ g', gAddSubtree g sub p ρ = some g' ∧ IsForest g') := by
+  refine ⟨fun new kids hnew hnd hk => ?_, fun r hr hr0 => ?_, fun r ρ₁ ρ₂ hr hinj hne => ?_,
+    fun sub p ρ hs hp hn hfresh => ?_⟩
+  · have hk' : ∀ c ∈ kids, c ∈ g.nodes ∧ (0, c) ∈ g.edges := fun c hc => ⟨(hf.edges_live _ (hk c hc)).2, hk c hc⟩
+    obtain ⟨g', hg'⟩ := Option.isSome_iff_exists.1 (Graph.gCreateRootNode_isSome hnew hf.root_live hnd hk')
+    exact ⟨g', hg', Graph.forest_createRootNode hf (fun c hc e => hnew (by rw [← e]; exact (hk' c hc).1)) hg'⟩
+  · obtain ⟨g', hg'⟩ := Option.isSome_iff_exists.1 (Graph.gRemoveSubtree_isSome hr)
+    exact ⟨g', hg', Graph.forest_removeSubtree hf hr0 hg'⟩
+  · obtain ⟨g', hg'⟩ := Option.isSome_iff_exists.1 (Graph.gGetSubtree_isSome (ρ₁ := ρ₁) (ρ₂ := ρ₂) hr
+      (fun a ha b hb _ _ h => hinj a ha b hb (congrArg ρ₂ h)) (fun a ha b hb _ _ h => hinj a ha b hb h)
+      (fun a ha _ => hne a ha) hf.nodes_nodup)
+    exact ⟨g', hg', Graph.forest_getSubtree hf hg'⟩
+  · obtain ⟨g', hg'⟩ := Option.isSome_iff_exists.1 (Graph.gAddSubtree_isSome hp hs.root_live hn hfresh)
+    exact ⟨g', hg', Graph.forest_addSubtree hf hs hg'⟩
+
+/-- what the invariant buys: the parent is unique, and there is no cycle (no node reaches itself along a
+non-empty path) -/
+theorem forest_parent_unique_acyclic {g : DG} (hf : IsForest g) :
+    (∀ p q v, (p, v) ∈ g.edges → (q, v) ∈ g.edges → p = q) ∧
+    (∀ v x, v ∈ g.nodes → (v, x) ∈ g.edges → ¬ Reach g x v) :=
+  ⟨fun _ _ _ hp hq => hf.parent_unique hp hq, fun _ _ hv he => hf.acyclic hv he⟩
+
+/-- the Boolean the driver evaluates on the model graph is the invariant -/
+theorem isForestB_iff {g : DG} : isForestB g = true ↔ IsForest g := Graph.isForestB_iff
+
+/-! ### non-vacuity (`Proofs/GraphExample.lean`) -/
+section
+open PhyModel.Graph.Ex
+
+example : IsForest g4 ∧ (∀ c ∈ [3, 1], c ≠ 5) ∧ gCreateRootNode g4 5 [3, 1] = none ∧
+    gCreateRootNode g4 5 [4] = some { nodes := [0, 1, 2, 3, 4, 5], edges := [(2, 1), (4, 3), (4, 2), (0, 5), (5, 4)] } := by
+  decide +kernel
+-- a child that is the node being created gives a self loop: the hypothesis of `forest_createRootNode` is needed
+example : ((gCreateRootNode g4 5 [5]).map isForestB) = some false := by decide +kernel
+example : IsForest g4 ∧ gGetSubtree g4 2 (· - 1) (· + 1) = some { nodes := [0, 1, 2], edges := [(2, 1), (0, 2)] } := by
+  decide +kernel
+example : IsForest g4 ∧ (2 : ℕ) ≠ 0 ∧ gRemoveSubtree g4 2 = some { nodes := [0, 3, 4], edges := [(0, 4), (4, 3)] } := by
+  decide +kernel
+example : IsForest g4 ∧ IsForest g2 ∧ gAddSubtree g4 g2 3 (· + 10) =
+    some { nodes := [0, 1, 2, 3, 4, 11, 12], edges := [(2, 1), (0, 4), (4, 3), (4, 2), (12, 11), (3, 12)] } := by
+  decide +kernel
+example : IsForest g5 ∧ gFromDict g5.edges g5.nodes = { nodes := [0, 2, 4, 7], edges := [(0, 4), (4, 7), (4, 2)] } := by
+  decide +kernel
+-- forest_step, forest_reachable: a history through every kind of graph-level edit
+example : (∀ op ∈ ops, GLegal op) ∧ gRun [gInit] ops =
+    some [{ nodes := [0, 3, 4, 2, 1], edges := [(0, 4), (4, 3), (1, 2), (3, 1)] }, gInit, g4, gInit] := by
+  decide +kernel
+
+end
+
+/-! ### the structural store model is a correct abstraction of the primitive-level manipulations
+
+`graphOf f` (`Proofs/GraphOf.lean`): live set `0 :: f.idxs`, edge list `Store.edgesOf 0 f` (what `to_dict`
+stores).  For each shape-changing structural operation of `Model/Store.lean`, the graph-level operation
+applied to `graphOf f` with the indices the structural operation chose succeeds and yields the live set and
+the edge multiset of `graphOf` of the structural result. -/
+section Link
+open PhyModel.Graph (graphOf mapIdx reindexMap graphsOf GEquiv)
+
+/-- the shape facts that hold by construction in `SF` are theorems about its graph -/
+theorem graph_of_forest {f : SF} (hn : f.idxs.Nodup) (h0 : 0 ∉ f.idxs) : IsForest (graphOf f) :=
+  Graph.isForest_graphOf hn h0
+
+/-- `createRootNode`: `takeRoots` / `cons` -/
+theorem graph_createRootNode {f : SF} {n1 : NodeRec} {cis : List ℕ} (hn : f.idxs.Nodup) (h0 : 0 ∉ f.idxs)
+    (hnew : n1.idx ∉ f.idxs) (hnew0 : n1.idx ≠ 0) (hlen : (f.takeRoots cis).1.rootRecs.length = cis.length) :
+    ∃ g', gCreateRootNode (graphOf f) n1.idx cis = some g' ∧
+      g'.nodes.Perm (graphOf (.cons n1 (f.takeRoots cis).1 (f.takeRoots cis).2)).nodes ∧
+      g'.edges.Perm (graphOf (.cons n1 (f.takeRoots cis).1 (f.takeRoots cis).2)).edges :=
+  Graph.graph_createRootNode hn h0 hnew hnew0 hlen
+
+/-- the same for the whole `Store.createRootNode` (fresh index, children looked up in `_node_indices`,
+`_update_path_to_root` leaves the graph alone) -/
+theorem graph_store_createRootNode {dt : Data} {s : Store} {ch : List Int} {data : List ℕ} {r : Store × Int}
+    (hwf : WF s) (h : s.createRootNode dt ch data = some r) :
+    ∃ cis g', ch.mapM (fun c => (alSet s.nodeIdx (s.numNodes : Int) s.fresh).lookup c) = some cis ∧
+      gCreateRootNode (graphOf s.forest) s.fresh cis = some g' ∧
+      g'.nodes.Perm (graphOf r.1.forest).nodes ∧ g'.edges.Perm (graphOf r.1.forest).edges :=
+  Graph.graph_store_createRootNode hwf h
+
+/-- `removeSub` (and: what is reachable from a clone in the graph is its structural subtree) -/
+theorem graph_removeSub {f : SF} {i : ℕ} (hn : f.idxs.Nodup) (h0 : 0 ∉ f.idxs) (hi : i ∈ f.idxs) :
+    (∀ x, f.findSub i = some x → ∀ v, Reach (graphOf f) i v ↔ v = i ∨ v ∈ x.2.idxs) ∧
+    ∃ g', gRemoveSubtree (graphOf f) i = some g' ∧
+      g'.nodes.Perm (graphOf (f.removeSub i)).nodes ∧ g'.edges.Perm (graphOf (f.removeSub i)).edges :=
+  ⟨fun _ hx v => Graph.reach_graphOf_iff hn h0 hx v, Graph.graph_removeSub hn h0 hi⟩
+
+/-- `getSubtree`: `findSub`, for any numbering of `subgraph` / `compose` that is injective on the subtree and
+avoids 0 — in particular (second part) the one `reindex … 1` chooses -/
+theorem graph_getSubtree {f : SF} {i : ℕ} {x : NodeRec × SF} (hn : f.idxs.Nodup) (h0 : 0 ∉ f.idxs)
+    (hx : f.findSub i = some x) :
+    (∀ ρ₁ ρ₂ : ℕ → ℕ, (∀ a ∈ i :: x.2.idxs, ∀ b ∈ i :: x.2.idxs, ρ₂ (ρ₁ a) = ρ₂ (ρ₁ b) → a = b) →
+      (∀ a ∈ i :: x.2.idxs, ρ₂ (ρ₁ a) ≠ 0) →
+      ∃ g', gGetSubtree (graphOf f) i ρ₁ ρ₂ = some g' ∧
+        g'.nodes.Perm (graphOf (mapIdx (fun a => ρ₂ (ρ₁ a)) (.cons x.1 x.2 .nil))).nodes ∧
+        g'.edges.Perm (graphOf (mapIdx (fun a => ρ₂ (ρ₁ a)) (.cons x.1 x.2 .nil))).edges) ∧
+    ∃ g', gGetSubtree (graphOf f) i id (reindexMap (.cons x.1 x.2 .nil) 1) = some g' ∧
+      g'.nodes.Perm (graphOf (Store.reindex (.cons x.1 x.2 .nil) 1).1).nodes ∧
+      g'.edges.Perm (graphOf (Store.reindex (.cons x.1 x.2 .nil) 1).1).edges :=
+  ⟨fun _ _ hinj hne0 => Graph.graph_getSubtree hn h0 hx hinj hne0, Graph.graph_getSubtree_struct hn h0 hx⟩
+
+/-- `addSubtree`: `append` (parent = virtual root) / `graftAt` of the re-indexed subtree, with the renaming
+`reindex … c` applies (`reindexMap`; the copy of the grafted tree's root gets one more unused index) -/
+theorem graph_addSubtree {f sf : SF} {p c : ℕ} (hn : f.idxs.Nodup) (h0 : 0 ∉ f.idxs) (hsn : sf.idxs.Nodup)
+    (hs0 : 0 ∉ sf.idxs) (hp : p = 0 ∨ p ∈ f.idxs) (hc : ∀ a ∈ f.idxs, a < c) (hc0 : 0 < c) :
+    ∃ g', gAddSubtree (graphOf f) (graphOf sf) p (reindexMap sf c) = some g' ∧
+      g'.nodes.Perm (graphOf (if p = 0 then (Store.reindex sf c).1.append f
+        else SF.graftAt p (Store.reindex sf c).1 f)).nodes ∧
+      g'.edges.Perm (graphOf (if p = 0 then (Store.reindex sf c).1.append f
+        else SF.graftAt p (Store.reindex sf c).1 f)).edges :=
+  Graph.graph_addSubtree_struct hn h0 hsn hs0 hp hc hc0
+
+/-- `fromDict`: `buildSF` on the dictionary form of a well-formed store -/
+theorem graph_fromDict {dt : Data} {s s' : Store} (hs : WF s ∧ Full s) (h : Store.fromDict dt s.toDict = some s') :
+    (gFromDict s.toDict.edges (0 :: s.toDict.nodeIdxRev.map (·.1))).nodes.Perm (graphOf s'.forest).nodes ∧
+      (gFromDict s.toDict.edges (0 :: s.toDict.nodeIdxRev.map (·.1))).edges.Perm (graphOf s'.forest).edges :=
+  Graph.graph_fromDict hs h
+
+/-- **every step of the store model is simulated by graph-level operations.**  `graphsOf sys` = the graphs of
+the live stores; `GEquiv` = same live set, same edge multiset.  Whatever edit `Store.step` performs on well-formed
+stores, there are legal graph-level operations (none for the data-point edits, `relabel`, `update`; one otherwise,
+with the indices the structural operation chose) that do not raise on `graphsOf sys` and end in the graphs of
+the new stores — so along every store history the structural forest is a correct abstraction of the
+primitive-level graph, and (`forest_step`) the graphs stay rooted forests. -/
+theorem graph_step {dt : Data} {sys sys' : Sys} {op : Op} (hall : ∀ s ∈ sys, WF s ∧ Full s)
+    (hstep : step dt sys op = some sys') :
+    (∃ gops : List GOp, (∀ o ∈ gops, GLegal o) ∧ ∃ gs', gRun (graphsOf sys) gops = some gs' ∧
+      List.Forall₂ GEquiv gs' (graphsOf sys')) ∧
+    ((∀ g ∈ graphsOf sys, IsForest g) → ∀ g ∈ graphsOf sys', IsForest g) :=
+  ⟨Graph.graph_step hall hstep, Graph.graph_step_forest hall hstep⟩
+
+/-! non-vacuity: on the store `t2` of section 6 (clone 1 above clone 0); further concrete instances with the
+graphs written out are at the end of `Proofs/GraphOfCreate(2)`, `GraphOfRemove`, `GraphOfGetSub`, `GraphOfGraft` -/
+section
+open PhyModel.Store.C07Ex
+
+example : t2.forest.idxs.Nodup ∧ 0 ∉ t2.forest.idxs ∧ graphOf t2.forest = { nodes := [0, 2, 1], edges := [(0, 2), (2, 1)] } ∧
+    (t2.forest.findSub 2).isSome = true ∧ 1 ∈ t2.forest.idxs ∧
+    gRemoveSubtree (graphOf t2.forest) 1 = some { nodes := [0, 2], edges := [(0, 2)] } ∧
+    graphOf (t2.forest.removeSub 1) = { nodes := [0, 2], edges := [(0, 2)] } := by decide +kernel
+example : WF t2 ∧ Full t2 ∧ (t2.createRootNode dt [1] [3]).isSome = true ∧ (Store.fromDict dt t2.toDict).isSome = true ∧
+    (∀ a ∈ t2.forest.idxs, a < t2.fresh) ∧ 0 < t2.fresh ∧ sub.forest.idxs.Nodup ∧ 0 ∉ sub.forest.idxs ∧
+    sub.forest.idxs = [1] := by
+  refine ⟨(wfB_iff _).1 (by decide +kernel), by unfold Full; decide +kernel, ?_⟩
+  decide +kernel
+-- graph_step: the hypotheses hold on `[t2, sub]` (`Inv` ⊇ `WF ∧ Full`, section 6) and `.rmSub 0 1` does not raise
+example : (step dt [t2, sub] (.rmSub 0 1)).isSome = true ∧ graphsOf [t2, sub] =
+    [{ nodes := [0, 2, 1], edges := [(0, 2), (2, 1)] }, { nodes := [0, 1], edges := [(0, 1)] }] := by decide +kernel
+
+end
+end Link
+end GraphShape
 
 end PhyModel.Props.C07
